@@ -110,9 +110,13 @@ func (c chk) tokens() string {
 		return c.kind + " " + strconv.Itoa(c.n)
 	case "sw", "ew", "inc":
 		return c.kind + " " + hexs(c.s)
+	case "re":
+		return "re " + strconv.Itoa(c.n)
 	}
 	return c.kind
 }
+
+var regexFamily = []string{`^[a-z]+$`, `[0-9]`, `^a.*z$`, `^(ab)*$`}
 
 func applyStrCheck(s any, pos int, c chk) any {
 	m := fmt.Sprintf("m%d", pos)
@@ -137,6 +141,8 @@ func applyStrCheck(s any, pos int, c chk) any {
 		return call("EndsWith", c.s, m)
 	case "inc":
 		return call("Includes", c.s, m)
+	case "re":
+		return call("RegexString", regexFamily[c.n%4], m)
 	case "lc":
 		return call("Lowercase", m)
 	case "uc":
@@ -151,7 +157,7 @@ func applyStrCheck(s any, pos int, c chk) any {
 	panic("check " + c.kind)
 }
 
-var alphabet = []byte("aAxXbZ z!é")
+var alphabet = []byte("aAxXbZ z!7é")
 
 func genString(r *hx.Rng, maxLen int, ascii bool) string {
 	n := r.Intn(maxLen + 1)
@@ -161,7 +167,7 @@ func genString(r *hx.Rng, maxLen int, ascii bool) string {
 			b = append(b, hx.Pick(r, []string{"é", "日", "\xff", " "})...)
 			continue
 		}
-		b = append(b, hx.Pick(r, alphabet[:9]))
+		b = append(b, hx.Pick(r, alphabet[:10]))
 	}
 	return string(b)
 }
@@ -173,13 +179,16 @@ func runStrings(o *hx.Out, r *hx.Rng, n int) {
 		var cs []chk
 		unicodeSensitive := false
 		for j := 0; j < nchecks; j++ {
-			k := hx.Pick(r, []string{"min", "max", "len", "sw", "ew", "inc", "lc", "uc", "trim", "lower", "upper"})
+			k := hx.Pick(r, []string{"min", "max", "len", "sw", "ew", "inc", "lc", "uc", "trim", "lower", "upper", "re"})
 			if k == "trim" || k == "lower" || k == "upper" {
 				unicodeSensitive = true
 			}
 			cs = append(cs, chk{kind: k})
 		}
 		in := genString(r, 8, unicodeSensitive)
+		if r.Chance(25) {
+			in = hx.Pick(r, []string{"abz", "az", "a\nz", "abab", "aba", "abc", "a1z", "", "ab", "zebra"})
+		}
 		for j := range cs {
 			switch cs[j].kind {
 			case "min", "max", "len":
@@ -187,6 +196,8 @@ func runStrings(o *hx.Out, r *hx.Rng, n int) {
 				if cs[j].n < 0 {
 					cs[j].n = 0
 				}
+			case "re":
+				cs[j].n = r.Intn(4)
 			case "sw":
 				cs[j].s = pickFrag(r, in, 0)
 			case "ew":
@@ -326,7 +337,7 @@ func numTok(k numKind, v any) string {
 
 func randNum(r *hx.Rng, k numKind) any {
 	if k.float {
-		f := hx.Pick(r, []float64{0, 1, -1, 0.5, 2.5, -2.5, 10, 1e10, -1e10, 16777216, 16777217, 9007199254740992, 9007199254740993, math.MaxFloat32, 100.25, 3})
+		f := hx.Pick(r, []float64{0, 1, -1, 0.5, 2.5, -2.5, 10, 1e10, -1e10, 16777216, 16777217, 9007199254740992, 9007199254740993, -9007199254740992, 9007199254740991, math.MaxFloat32, 100.25, 3, math.Inf(1), math.Inf(-1), math.NaN(), math.Copysign(0, -1)})
 		if r.Chance(30) {
 			f += float64(r.Intn(5) - 2)
 		}
@@ -388,6 +399,16 @@ func runNums(o *hx.Out, r *hx.Rng, n int) {
 				meth := hx.Pick(r, []string{"MultipleOf", "Step"})
 				schema = rv.MethodByName(meth).Call([]reflect.Value{reflect.ValueOf(d), reflect.ValueOf(m)})[0].Interface()
 				toks = append(toks, "mul i64 "+strconv.FormatInt(d, 10))
+				continue
+			}
+			if r.Chance(10) {
+				if k.float && r.Chance(50) {
+					schema = rv.MethodByName("Finite").Call([]reflect.Value{reflect.ValueOf(m)})[0].Interface()
+					toks = append(toks, "finite")
+				} else {
+					schema = rv.MethodByName("Safe").Call([]reflect.Value{reflect.ValueOf(m)})[0].Interface()
+					toks = append(toks, "safe")
+				}
 				continue
 			}
 			if r.Chance(15) {
@@ -556,6 +577,47 @@ func runEnums(o *hx.Out, r *hx.Rng, n int) {
 	}
 }
 
+func runBools(o *hx.Out, r *hx.Rng) {
+	fv := foreignValues()
+	for variant := 0; variant < 2; variant++ {
+		var schema any = gozod.Bool()
+		if variant == 1 {
+			schema = gozod.BoolPtr()
+		}
+		try := func(tok string, v any, how string) {
+			res, err, pm := parseVia(schema, reflect.ValueOf(v))
+			obs := ""
+			switch {
+			case pm != "":
+				obs = "panic:" + pm
+			case err != nil:
+				obs = "rej:value"
+			default:
+				if b, ok := derefAll(res).(bool); ok {
+					obs = "ok:bool:" + strconv.FormatBool(b)
+				} else {
+					obs = fmt.Sprintf("ok:?%T", res)
+				}
+			}
+			o.Emit(fmt.Sprintf("c01 enum %d 2 bool:true bool:false | %s #%s", variant, tok, how), obs)
+			o.Count("bool:" + strings.SplitN(obs, ":", 2)[0])
+		}
+		for _, b := range []bool{true, false} {
+			try("bool:"+strconv.FormatBool(b), b, "bool")
+			bb := b
+			try("bool:"+strconv.FormatBool(b)+"*", &bb, "*bool")
+		}
+		for _, f := range fv {
+			if _, isB := f.(bool); f == nil || isB {
+				continue
+			}
+			tn := strings.ReplaceAll(fmt.Sprintf("%T", f), " ", "")
+			try("foreign "+tn, f, tn)
+		}
+	}
+	_ = r
+}
+
 func main() {
 	c := hx.ParseFlags()
 	o, err := hx.NewOut(c.OutDir)
@@ -571,6 +633,7 @@ func main() {
 	runStrings(o, r, ns)
 	runNums(o, r, nn)
 	runEnums(o, r, ne)
+	runBools(o, r)
 	if err := o.Close(map[string]any{"seed": c.Seed, "tier": c.Tier}); err != nil {
 		fmt.Fprintln(os.Stderr, err)
 		os.Exit(3)
